@@ -1317,7 +1317,7 @@ fn round_hogged(seed: u64, hb: &Heartbeat, tot: &Mutex<Tot>, prop: &str) {
     let cap = if tell_variant && !no_time { 1 } else { 4 };
     let spec = ActorSpec { cap: Some(cap), start: HookScript::default(), run: vec![], stop: HookScript::default(), run_err_when_handled: None, in_peers: false };
     let to_ms = if no_time { 3000 } else { 40 + r.below(40) };
-    let busy_us = (to_ms + 150) * 1000;
+    let busy_us = (to_ms + 400) * 1000;
     let erased = r.chance(30);
     let from_async = no_time && workers == 2 && r.chance(30);
     let via_enter = r.chance(30);
@@ -1394,8 +1394,9 @@ fn round_hogged(seed: u64, hb: &Heartbeat, tot: &Mutex<Tot>, prop: &str) {
                     viol.push(("C17.same_rules".into(), format!("[hogged] {what}: returned {res:?} after {el:?} although the actor was alive and idle")));
                 }
             } else {
-                let slack = Duration::from_millis(to_ms + 100);
-                if *el > slack && !stalled {
+                // a late return is only a verdict if the machine demonstrably ran threads on time during the round
+                let slack = Duration::from_millis(to_ms + 250);
+                if *el > slack && hb.max_late_since(bucket0) < 100_000 {
                     viol.push(("C17.deadline".into(), format!("[hogged] {what}: returned {res:?} only after {el:?}")));
                 } else if !matches!(res, Res::Timeout) && !stalled {
                     viol.push(("C17.deadline".into(), format!("[hogged] {what}: returned {res:?} after {el:?} although the outcome could not exist before the deadline")));
